@@ -30,6 +30,17 @@ CoherentDiag(f, m) ==
   ELSE IF Len(m.tflag_times) >= 1 /\ m.stime # m.tflag_times[1] THEN "STIME differs from the first time flag"
   ELSE ""
 Coherent(f, m) == CoherentDiag(f, m) = ""
+\* a file built by hand whose time flags are not materialised yet (attributes
+\* set, variables created, no TFLAG): everything else agrees
+CoherentSansTflag(f, m) ==
+  /\ m.nvars = Len(m.varlist) /\ m.rawlen = 16 * m.nvars
+  /\ HasDim(f, "VAR") /\ DimLen(f, "VAR") = m.nvars
+  /\ ~HasVar(f, "TFLAG")
+  /\ \A i \in 1..Len(m.varlist) : HasVar(f, m.varlist[i]) /\ VarRec(f, m.varlist[i]).dims \in StdDims
+  /\ (HasDim(f, "ROW") => m.nrows = DimLen(f, "ROW"))
+  /\ (HasDim(f, "COL") => m.ncols = DimLen(f, "COL"))
+  /\ (HasDim(f, "LAY") => m.nlays = DimLen(f, "LAY"))
+  /\ Len(m.vglvls) = m.nlays + 1
 
 \* IOAPI files always mark the time-step dimension unlimited (C01)
 TstepUnlimited(f) == HasDim(f, "TSTEP") => DimRec(f, "TSTEP").u
